@@ -38,6 +38,29 @@ ASSUMPTIONS = ['POSIX semantics of rename (atomic replace), link (EEXIST), open(
                'the part file is UTF-8 in text mode; nothing is required of the part file after a crash']
 
 
+REQUIRED_PROBES = ['crash_between_link_and_unlink', 'crash_with_bytes_only_in_user_buffer',
+                   'crash_with_strict_prefix_in_part_file', 'flush_needed_multiple_raw_writes',
+                   'power_loss_drops_unsynced_tail', 'crash_after_publish', 'recovery_with_part_hardlinked_to_dest']
+
+
+def fidelity_selftest(seed, n=300):
+    from simkit import core as _c
+    bad = []
+    k = 0
+    for i in range(n):
+        case = S.gen_workload(_c.rng_for(seed, 'C04-fidelity', i), faults=bool(i % 2))
+        if case.get('buffering') == 1 and not case.get('text_mode'):
+            continue
+        k += 1
+        d = S.fidelity_diff(case)
+        if d:
+            bad.append((i, d))
+    if bad:
+        from simkit.driver import HarnessError
+        raise HarnessError('simfs disagrees with the real kernel on %d of %d fault-free saves, e.g. %r' % (len(bad), k, bad[0]))
+    return '%d fault-free saves executed on the real kernel (tmp dir) and on simfs: listing, bytes, mode, call sequence, exception agree' % k
+
+
 def setup(root):
     S.setup(root)
 
